@@ -47,6 +47,11 @@ impl World {
     pub uninterp spec fn stg(&self) -> u64;
     pub uninterp spec fn oldp(&self) -> u64;
     pub uninterp spec fn orig(&self) -> Node;
+    /// paths whose recursive removal was attempted and reported an error (so "no staging directory left behind" can be stated
+    /// as: removed, or the removal itself failed)
+    pub uninterp spec fn rm_err(&self) -> Set<u64>;
+    /// some generator stage of this run has reported an error
+    pub uninterp spec fn gen_failed(&self) -> bool;
     pub open spec fn same_cfg(&self, o: &World) -> bool { self.out() == o.out() && self.stg() == o.stg() && self.oldp() == o.oldp() && self.orig() == o.orig() }
     /// C23: what must hold in EVERY intermediate state (a crash can stop the process after any step)
     pub open spec fn safe(&self, fs: Map<u64, Node>) -> bool {
@@ -59,19 +64,19 @@ impl World {
 
     #[verifier::external_body]
     pub fn is_dir(&mut self, p: &Path) -> (r: bool)
-        ensures final(self).fs() == old(self).fs(), final(self).same_cfg(old(self)),
+        ensures final(self).fs() == old(self).fs(), final(self).same_cfg(old(self)), final(self).rm_err() == old(self).rm_err() && final(self).gen_failed() == old(self).gen_failed(),
                 r == (old(self).fs()[p.id] is Dir || old(self).fs()[p.id] is Damaged),
     { unimplemented!() }
     #[verifier::external_body]
     pub fn exists(&mut self, p: &Path) -> (r: bool)
-        ensures final(self).fs() == old(self).fs(), final(self).same_cfg(old(self)),
+        ensures final(self).fs() == old(self).fs(), final(self).same_cfg(old(self)), final(self).rm_err() == old(self).rm_err() && final(self).gen_failed() == old(self).gen_failed(),
                 r == !(old(self).fs()[p.id] is Absent),
     { unimplemented!() }
     /// rename(2): atomic. A crash may happen just before it, so the state must be crash-safe here. Failure changes nothing.
     #[verifier::external_body]
     pub fn rename(&mut self, src: &Path, dst: &Path) -> (r: Result<(), IoError>)
         requires old(self).safe(old(self).fs()),
-        ensures final(self).same_cfg(old(self)),
+        ensures final(self).same_cfg(old(self)), final(self).rm_err() == old(self).rm_err() && final(self).gen_failed() == old(self).gen_failed(),
                 r.is_err() ==> final(self).fs() == old(self).fs(),
                 r.is_ok() ==> !(old(self).fs()[src.id] is Absent)
                     && final(self).fs() == old(self).fs().insert(dst.id, old(self).fs()[src.id]).insert(src.id, Node::Absent),
@@ -84,9 +89,58 @@ impl World {
                  old(self).fs()[p.id] is Dir ==> old(self).safe(old(self).fs().insert(p.id, Node::Damaged(old(self).fs()[p.id]->Dir_0))),
                  old(self).safe(old(self).fs().insert(p.id, Node::Absent)),
         ensures final(self).same_cfg(old(self)),
+                final(self).rm_err() == (if r.is_err() { old(self).rm_err().insert(p.id) } else { old(self).rm_err() }), final(self).gen_failed() == old(self).gen_failed(),
                 r.is_ok() ==> final(self).fs() == old(self).fs().insert(p.id, Node::Absent),
                 r.is_err() ==> final(self).fs() == old(self).fs()
                     || final(self).fs() == old(self).fs().insert(p.id, Node::Absent)
                     || (old(self).fs()[p.id] is Dir && final(self).fs() == old(self).fs().insert(p.id, Node::Damaged(old(self).fs()[p.id]->Dir_0))),
     { unimplemented!() }
+    /// TB-8c create_staging_dir (circuit-builder lib.rs:163; not under contract): on success a FRESH, empty sibling directory
+    /// `.<name>.staging-<pid>-<rand>` now exists (create_dir fails on an existing path). The ghost configuration names it: it
+    /// is this publication's staging path, and its `.old` sibling is the moved-aside path. The three names are distinct by
+    /// construction of the name. An empty staging directory is a partially present new set.
+    #[verifier::external_body]
+    pub fn create_staging_dir(&mut self, output_dir: &Path) -> (r: Result<PathBuf>)
+        requires old(self).safe(old(self).fs()),
+        ensures final(self).same_cfg(old(self)), final(self).rm_err() == old(self).rm_err() && final(self).gen_failed() == old(self).gen_failed(),
+                r.is_err() ==> final(self).fs() == old(self).fs(),
+                r.is_ok() ==> r->Ok_0.id == old(self).stg() && old(self).oldp() == old_sibling(r->Ok_0.id)
+                    && r->Ok_0.id != output_dir.id && old_sibling(r->Ok_0.id) != output_dir.id && old_sibling(r->Ok_0.id) != r->Ok_0.id
+                    && old(self).fs()[r->Ok_0.id] is Absent && !old(self).rm_err().contains(r->Ok_0.id)
+                    && final(self).fs() == old(self).fs().insert(r->Ok_0.id, Node::Damaged(1)),
+    { unimplemented!() }
+    /// TB-8d generator stages (generate_*_circuit_binaries; not under contract): they write files into `dir` only. While they
+    /// run, and if they fail, `dir` holds a partial new set; a crash can happen at any point, so the partial state must be safe.
+    #[verifier::external_body]
+    pub fn gen_leaf(&mut self, dir: &Path) -> (r: Result<()>)
+        requires old(self).safe(old(self).fs()), old(self).safe(old(self).fs().insert(dir.id, Node::Damaged(1))),
+        ensures final(self).same_cfg(old(self)), final(self).rm_err() == old(self).rm_err(), final(self).gen_failed() == (old(self).gen_failed() || r.is_err()),
+                final(self).fs() == old(self).fs().insert(dir.id, Node::Damaged(1)),
+    { unimplemented!() }
+    #[verifier::external_body]
+    pub fn gen_private(&mut self, dir: &Path, num_leaf_proofs: usize, include_prover: bool) -> (r: Result<()>)
+        requires old(self).safe(old(self).fs()), old(self).safe(old(self).fs().insert(dir.id, Node::Damaged(1))),
+        ensures final(self).same_cfg(old(self)), final(self).rm_err() == old(self).rm_err(), final(self).gen_failed() == (old(self).gen_failed() || r.is_err()),
+                final(self).fs() == old(self).fs().insert(dir.id, Node::Damaged(1)),
+    { unimplemented!() }
+    #[verifier::external_body]
+    pub fn gen_public(&mut self, dir: &Path, num_private_batch_proofs: usize, num_leaf_proofs: usize) -> (r: Result<()>)
+        requires old(self).safe(old(self).fs()), old(self).safe(old(self).fs().insert(dir.id, Node::Damaged(1))),
+        ensures final(self).same_cfg(old(self)), final(self).rm_err() == old(self).rm_err(), final(self).gen_failed() == (old(self).gen_failed() || r.is_err()),
+                final(self).fs() == old(self).fs().insert(dir.id, Node::Damaged(1)),
+    { unimplemented!() }
+    /// `config.save(dir)`, written last: "its presence marks the staged set as complete" — success completes the set in `dir`
+    #[verifier::external_body]
+    pub fn save_config(&mut self, cfg: &CircuitBinsConfig, dir: &Path) -> (r: Result<()>)
+        requires old(self).safe(old(self).fs()), old(self).safe(old(self).fs().insert(dir.id, Node::Damaged(1))),
+                 old(self).safe(old(self).fs().insert(dir.id, Node::Dir(1))),
+        ensures final(self).same_cfg(old(self)), final(self).rm_err() == old(self).rm_err(), final(self).gen_failed() == (old(self).gen_failed() || r.is_err()),
+                final(self).fs() == old(self).fs().insert(dir.id, if r.is_ok() { Node::Dir(1) } else { Node::Damaged(1) }),
+    { unimplemented!() }
+}
+/// aggregator config.rs CircuitBinsConfig: validated counts (validation is C28/C29's subject, not the publication's)
+pub struct CircuitBinsConfig { pub num_leaf_proofs: usize, pub num_private_batch_proofs: Option<usize> }
+impl CircuitBinsConfig {
+    #[verifier::external_body]
+    pub fn new(num_leaf_proofs: usize, num_private_batch_proofs: Option<usize>) -> (r: Result<Self>) { unimplemented!() }
 }
